@@ -17,7 +17,7 @@ class C06(Prop):
     lean_targets = ["M17.Props.C06", "M17.Props.C03"]
     theorems = ["M17.C06.gen_thresholds", "M17.C06.update_sane", "M17.C06.dcd_no_nan_latch", "M17.C06.update_level_ge",
                 "M17.C06.dcd_recovers", "M17.C06.run_level_ge", "M17.C06.dcd_recovers_within", "M17.C06.dcd_recovers_10_at_4_5", "M17.C06.dcd_holds", "M17.C06.unguarded_silence_is_nan", "M17.C06.unguarded_nan_latches",
-                "M17.C03.coast_step", "M17.C03.coasting_bounded"]
+                "M17.C03.coast_step", "M17.C03.coasting_bounded", "M17.C03.lock_needs_decodable_frames"]
     level_text = ("PARTIAL proof. Lean 4 theorems about the carrier detector's update (model M17/Model/Dcd.lean, thresholds regenerated from "
                   "the current header), in exact arithmetic extended with the IEEE special values: for ALL histories of finite non-negative band "
                   "energies — exact digital silence (0/0) included — the averaged level stays a finite number (dcd_no_nan_latch, induction over "
@@ -27,7 +27,9 @@ class C06(Prop):
                   "The same update function is executed at binary32 (with the C++ expression's promotion to double) bit-for-bit against "
                   "DataCarrierDetect::update on random and boundary band energies. On the control skeleton of the demodulator (M17/Model/Demod.lean, tied to the code by C03's trace inclusion): coasting is "
                   "bounded (coasting_bounded, for all event sequences) — without a sync word at most MAX_MISSING_SYNC further frames are delivered before "
-                  "the sync state machine gives up and searches afresh, so misaligned frames that merely decode below the cost limit cannot hold it for ever. "
+                  "the sync state machine gives up and searches afresh, so misaligned frames that merely decode below the cost limit cannot hold it for ever — and a sync word confirms "
+                  "the lock only when frames decode (lock_needs_decodable_frames): a sync-like data pattern recurring in every frame of a transmission with a "
+                  "repeating payload cannot keep it locked to frames it cannot decode. "
                   "NOT proved: that a clean transmission produces ratio >= 4.5 on every block "
                   "(measured on every run and recorded), and the sync search / clock acquisition that follow carrier detect (floating-point "
                   "correlator, Kalman filters): these are explored end to end — lead-in histories x channel envelope x clean transmissions "
@@ -110,6 +112,12 @@ class C06(Prop):
         audio_l = [rng.randrange(-8000, 8000) for _ in range(320 * nlong)]
         tx_l, _, _ = demodlib.transmission(ctx, mod, "AB1CDE", "", 11, audio_l)
         sent_l = demodlib.sent_stream_payloads(ctx, mod, audio_l)
+        # transmissions whose codec2 payload repeats in every frame (silence, a loud square wave): only the frame number and the LICH differ
+        # from frame to frame, so any data pattern that resembles a sync word recurs at the same place in every frame
+        audio_c = [(30000 if (i // 40) % 2 else -30000) for i in range(320 * nlong)] if rng.random() < 0.6 else [0] * (320 * nlong)
+        tx_c, _, _ = demodlib.transmission(ctx, mod, "".join(rng.choice(demodlib.S.ALPH[1:]) for _ in range(rng.randrange(1, 10))),
+                                           "".join(rng.choice(demodlib.S.ALPH[1:]) for _ in range(rng.randrange(1, 10))), rng.randrange(16), audio_c)
+        sent_c = demodlib.sent_stream_payloads(ctx, mod, audio_c)
         audio_p = [rng.randrange(-8000, 8000) for _ in range(320 * 12)]
         tx_p, _, _ = demodlib.transmission(ctx, mod, "K9XYZ", "W1AW", 0, audio_p)
         audio_q = [rng.randrange(-8000, 8000) for _ in range(320 * 70)]
@@ -195,6 +203,10 @@ class C06(Prop):
             hist, p, pre = scenario(k) if k < n else sweep[k - n]
             long_ = (k % 8 == 0)
             tx, sent = (tx_l, sent_l) if long_ else (tx_s, sent_s)
+            const_ = (k % 4 == 3) or (k >= n and k % 2 == 0)
+            if const_:
+                long_, tx, sent = True, tx_c, sent_c
+                hist = hist + "+repeating-payload"
             ln, rep, rc, err = demodlib.run_rx(ctx, demod, p, pre + tx)
             key = (hist, tuple(sorted(p.items())), len(pre), long_)
             ctx.count(key, nontrivial=(p["leadn"] + len(pre) >= 100))
@@ -211,6 +223,7 @@ class C06(Prop):
                 ln, rep, rc, err = demodlib.run_rx(ctx, demod, p, pre + tx_l)
                 h, frames = demodlib.parse_frames(rep)
                 res = demodlib.judge_delivery(sent_l, frames)
+                sent = sent_l
                 ok = res["steady_frame"] is not None and res["steady_frame"] <= 400
                 ctx.stat("rx:re-decided-on-long-transmission")
             if ok:
@@ -219,12 +232,12 @@ class C06(Prop):
             else:
                 fails += 1
                 dcd_ever = h[5] if h else 0
-                ctx.violate(f"rx:deaf:{hist}",
+                ctx.violate(f"rx:deaf:{hist.split('+')[0]}" + ("+repeating-payload" if const_ else ""),
                             f"after history `{hist}` ({p['leadn'] + len(pre)} samples) a clean 412-frame transmission (gain {p['gain']/1000}, dc {p['dc']/1e4}, sigma {p['sigma']/1e4}, "
                             f"{p['ppm']} ppm) never reaches steady reception: {res['delivered']} stream frames delivered, carrier detect asserted on {dcd_ever} samples",
                             {"stream": "rx", "history": hist, "params": p, "pre_samples": len(pre), "op_head": ln[:160] + " ...",
                              "ops_file": demodlib.save_ops([ln]), "expected": "steady reception (8 consecutive bit-exact frames) within 400 frames",
-                             "sent_payloads_head": sent_l[:3]})
+                             "sent_payloads_head": sent[:3]})
         ctx.sample({"scenarios": n, "no-steady-reception": fails})
 
 
